@@ -503,10 +503,13 @@ package lnwire
 //@   loop * havoc
 //@   bounds-safe
 //@
+//@ // a record of static size is decoded only with exactly that length (finding F40): bytes left unread would be taken for the next record
 //@ func rgbDecoder
 //@   props C10
 //@   loop * havoc
 //@   bounds-safe
+//@   site call ReadElements: assert l == 3
+//@   ensures result == nil ==> l == 3
 //@
 //@ func torV3AddrsDecoder
 //@   props C10
@@ -620,6 +623,8 @@ package lnwire
 //@   props C10
 //@   loop * havoc
 //@   bounds-safe
+//@   site call ReadElement: assert l == 34
+//@   ensures result == nil ==> l == 34
 //@
 //@ func partialSigTypeDecoder
 //@   props C10
